@@ -168,7 +168,7 @@ func (c *Ctx) payloadOnlyAfterErrorCheck(rule string) {
 						cmdVals = append(cmdVals, unspill(fld.X, 0)...)
 					}
 				}
-				what = "Payload." + cc.Method.Name()
+				what = "Payload." + engine.MethodName(cc.Method)
 			}
 			for _, cv := range cmdVals {
 				errs, judged := companions(cv)
